@@ -48,7 +48,8 @@ class StandardUnitType(UnitType):
             self.conversion = (f"_convert_linear",)
         elif -self.baseunits1.dimensions==self.baseunits2.dimensions:
             self.conversion = (f"_convert_inversed",)
-        elif self.baseunits1.nobase and self.baseunits2.units==['rad']:
+        elif self.baseunits1.nobase and self.baseunits2.units==['rad'] and \
+             self.baseunits2.dimensions.value()==[0,0,0,0,0,0,0,1]:   # radians, not rad2 or rad-1
             self.conversion = (f"_convert_linear",)
         else:
             return False
